@@ -91,3 +91,93 @@ Print Assumptions vdata_inv_satisfiable.
 Theorem vdata_extend_f_orig_refuted : exists ops f, dhistory Orig true ops (start None) = Fault f.
 Proof. exact vdata_extend_f_orig_refuted_lemma. Qed.
 Print Assumptions vdata_extend_f_orig_refuted.
+
+(* ------------------------------------------------------------------ the two chained hash tables
+   (coq/Mem/HashTab.v: pointer-level model, as coded, of hash_expand / hash_lookup / hash_insert /
+   _vnacal_new_init_parameter_hash / _vnacal_new_free_parameter_hash and the look-up, malloc, insert
+   sequence of _vnacal_new_get_parameter; and of map_find_anchor / map_expand / map_subtree /
+   map_delete / map_alloc / vnaproperty_vkeys / vnaproperty_free of a map) *)
+Require Import LV.Mem.HashTab LV.Mem.HashTabProofs.
+
+(* vnacal_new_t parameter hash: every sequence of get (look-up or insert, any integer index) and find,
+   with or without one failing request: init / ops / free never faults ... *)
+Theorem phash_no_fault : forall ops k f, phhistory HFixed ops (start k) <> Fault f.
+Proof. exact ph_no_fault_lemma. Qed.
+Print Assumptions phash_no_fault.
+
+(* ... the ledger is empty after _vnacal_new_free_parameter_hash ... *)
+Theorem phash_no_leak : forall ops k os s', phhistory HFixed ops (start k) = Ok (os, s') -> live s' = [].
+Proof. exact ph_no_leak_lemma. Qed.
+Print Assumptions phash_no_leak.
+
+(* ... and every answer is the one the set of stored keys dictates (ph_spec: get finds a stored key
+   or stores the new one, or fails with ENOMEM and stores nothing; find answers Done exactly for the
+   stored keys), whatever the insertion order and however often the table has grown (8, 16, 32, ...
+   buckets, in-place rehash).  k = Some 0 is the run whose first request (the table itself) fails. *)
+Theorem phash_lookup_exact : forall ops k os s', phhistory HFixed ops (start k) = Ok (os, s') ->
+  (k = Some O /\ os = []) \/ ph_spec_run [] ops os.
+Proof. exact ph_lookup_exact_lemma. Qed.
+Print Assumptions phash_lookup_exact.
+
+(* without a failing request the outcomes are a function of the op list alone *)
+Theorem phash_fault_free_exact : forall ops os s',
+  phhistory HFixed ops (start None) = Ok (os, s') -> os = ph_fun [] ops.
+Proof. exact ph_fault_free_exact_lemma. Qed.
+Print Assumptions phash_fault_free_exact.
+
+Theorem phash_inv_satisfiable : exists h s, PHInv h s /\ halloc h = 16%nat /\ hcount h = 9%nat /\
+  nth 0 (map (map nkey) (hbuckets h)) [] = [0; 16; 32]%nat.
+Proof. exact PHInv_satisfiable. Qed.
+Print Assumptions phash_inv_satisfiable.
+
+(* bug shapes (seeded changes C20-2, C16-2 / C01-1): hash_insert pushing on the chain head, hash_expand
+   pushing rehashed nodes on the chain head: the sorted-chain early exit of hash_lookup then misses a
+   stored key, so the invariant "chains ascending" is what the theorems above rest on *)
+Theorem phash_head_insert_refuted : exists ops os s,
+  phhistory HHeadInsert ops (start None) = Ok (os, s) /\ os <> ph_fun [] ops.
+Proof. exact ph_head_insert_refuted_lemma. Qed.
+Print Assumptions phash_head_insert_refuted.
+
+Theorem phash_rehash_head_refuted : exists ops os s,
+  phhistory HRehashHead ops (start None) = Ok (os, s) /\ os <> ph_fun [] ops.
+Proof. exact ph_rehash_head_refuted_lemma. Qed.
+Print Assumptions phash_rehash_head_refuted.
+
+(* vnaproperty map: for every hash function hf (the code uses CRC-32C of the key; the model's key is
+   the rank of (hash, name)), every sequence of set / look-up / delete / keys, with or without one
+   failing request: alloc / ops / free never faults, frees everything, and every answer (found or
+   not, the key vector in insertion order) is the one the insertion-order list of keys dictates *)
+Theorem pmap_no_fault : forall hf ops k f, mhistory HFixed (map (mop_of hf) ops) (start k) <> Fault f.
+Proof. exact map_no_fault_lemma. Qed.
+Print Assumptions pmap_no_fault.
+
+Theorem pmap_no_leak : forall hf ops k os s',
+  mhistory HFixed (map (mop_of hf) ops) (start k) = Ok (os, s') -> live s' = [].
+Proof. exact map_no_leak_lemma. Qed.
+Print Assumptions pmap_no_leak.
+
+Theorem pmap_lookup_exact : forall hf ops k os s',
+  mhistory HFixed (map (mop_of hf) ops) (start k) = Ok (os, s') ->
+  (k = Some O /\ os = []) \/ m_spec_run [] ops os.
+Proof. exact map_lookup_exact_lemma. Qed.
+Print Assumptions pmap_lookup_exact.
+
+Theorem pmap_fault_free_exact : forall hf ops os s',
+  mhistory HFixed (map (mop_of hf) ops) (start None) = Ok (os, s') -> os = m_fun [] ops.
+Proof. exact map_fault_free_exact_lemma. Qed.
+Print Assumptions pmap_fault_free_exact.
+
+Theorem pmap_inv_satisfiable : exists m s, MInv hf_demo m s /\ halloc (mtab m) = 33%nat /\ hcount (mtab m) = 21%nat /\
+  nth 0 (map (map nkey) (hbuckets (mtab m))) [] = [0; 2]%nat /\ length (live s) = 44%nat.
+Proof. exact MInv_satisfiable. Qed.
+Print Assumptions pmap_inv_satisfiable.
+
+Theorem pmap_head_insert_refuted : exists ops os s,
+  mhistory HHeadInsert (map (mop_of hf_demo) ops) (start None) = Ok (os, s) /\ os <> m_fun [] ops.
+Proof. exact map_head_insert_refuted_lemma. Qed.
+Print Assumptions pmap_head_insert_refuted.
+
+Theorem pmap_rehash_head_refuted : exists ops os s,
+  mhistory HRehashHead (map (mop_of hf_demo) ops) (start None) = Ok (os, s) /\ os <> m_fun [] ops.
+Proof. exact map_rehash_head_refuted_lemma. Qed.
+Print Assumptions pmap_rehash_head_refuted.
